@@ -2,7 +2,8 @@
 
 proof:           lean/PPProofs/Props/C07.lean (decision logic of And/_ErrorStop, MatchFirst, Opt, repetition,
                  ZeroOrMore, ParseElementEnhance, FollowedBy, NotAny, try_parse, Or — for all sub-expression
-                 behaviours, inputs and list shapes)
+                 behaviours, inputs and list shapes); lean/PPProofs/Props/C07Depth.lean (the same at ANY nesting
+                 depth: one theorem by induction over the path of propagating call positions of the transcribed parser)
 correspondence:  the parse model vs the real code (memoization off) on grammars with '-' at every position of
                  sequences nested in every container, fatal actions and fatal conditions; observable = exception class,
                  location, and the tokens of the alternative that came back
@@ -32,8 +33,24 @@ META = dict(
          "try_parse (stop_on, SkipTo fail_on, lookaheads) treat it as a non-match (notany_treats_fatal_as_nonmatch, "
          "tryParse_converts_fatal); Or raises a collected fatal only when no alternative matched "
          "(or_fatal_only_if_none_matched, or_raises_fatal_when_none_matched). These are statements about the transcribed "
-         "parseImpl bodies; the tie to core.py is the correspondence run. PARTIAL: Each is outside the model (oracle only); "
-         "'at any depth' is obtained by composing the per-container theorems, not as one context-induction theorem.",
+         "parseImpl bodies; the tie to core.py is the correspondence run. "
+         "ANY DEPTH, as one theorem by induction over the nesting context (PPProofs/Props/C07Depth.lean; relation Path = "
+         "reflexive-transitive closure of Step, one constructor per propagating call position of the transcribed parser: "
+         "And first/later element, MatchFirst alternative after soft failures, Opt, first/later iteration of "
+         "OneOrMore/ZeroOrMore, Group/Suppress/Combine/Forward/plain ParseElementEnhance, FollowedBy, Located, the SkipTo "
+         "target (scan and include re-parse; the code catches only ParseException/IndexError there), the "
+         "ignore-expressions run by preParse, by the repetition loop and by the pre-parse inside Or/StringStart, the real "
+         "re-parses Or does after its trial pass), for all grammars, inputs, locations, flags and "
+         "fuels: fatal_propagates_exact (the outer call fails with the inner fatal sent through the containers' exception "
+         "maps), fatal_propagates_any_depth (outer failure is fatal; class unchanged, or ParseSyntaxException when an And "
+         "element behind '-' is on the path; location unchanged unless it is 0 on a non-syntax exception, which "
+         "ParseElementEnhance replaces), fatal_class_preserved_without_stop, errorstop_any_depth (any failure, also a plain "
+         "ParseException, of an element behind '-' in an And reached through such a path surfaces at the top as "
+         "ParseSyntaxException at the same location); step_fail is the single level. PARTIAL: Each is outside the model "
+         "(oracle only); the trial pass of Or is not a Path position (a fatal collected there is raised only when no "
+         "alternative matched: the two Or theorems above). The any-depth theorems speak about the transcribed parser "
+         "(memoization off); the Path hypotheses are facts about the sub-parses on the way (earlier elements matched, "
+         "earlier alternatives failed softly, ...), not decided by the theorem.",
     note="Trusted: Lean kernel; axioms propext/Classical.choice/Quot.sound; the parse model (validated differentially "
          "on every run, node attributes extracted from the live objects); the exception hierarchy "
          "(ParseSyntaxException <= ParseFatalException, ParseFatalException not <= ParseException) is re-checked against the "
@@ -60,6 +77,12 @@ THEOREMS = [
     "PP.Parse.notany_treats_fatal_as_nonmatch",
     "PP.Parse.or_fatal_only_if_none_matched",
     "PP.Parse.or_raises_fatal_when_none_matched",
+    # any depth (PPProofs/Props/C07Depth.lean)
+    "PP.Parse.step_fail",
+    "PP.Parse.fatal_propagates_exact",
+    "PP.Parse.fatal_propagates_any_depth",
+    "PP.Parse.fatal_class_preserved_without_stop",
+    "PP.Parse.errorstop_any_depth",
 ]
 
 DASHY = dict(errorstop=0.9, actions=0.3, fatal_actions=True, ignore=0.0, ws_variants=0.05, set_name=0.0,
@@ -536,7 +559,7 @@ def run_histories(ctx, pp):
 
 def run(ctx):
     pp = common.import_pyparsing()
-    ctx.proof_leg("PPProofs.Props.C07", THEOREMS)
+    ctx.proof_leg("PPProofs.Props.C07", THEOREMS, extra_modules=("PPProofs.Props.C07Depth",))
     # generated fact: the exception hierarchy the model's Exc type encodes
     ctx.obligation("ParseSyntaxException <= ParseFatalException", issubclass(pp.ParseSyntaxException, pp.ParseFatalException))
     ctx.obligation("ParseFatalException not <= ParseException", not issubclass(pp.ParseFatalException, pp.ParseException))
